@@ -55,6 +55,14 @@ func c09Models(rnd *Rand, tier string) []struct {
 				a.Attrs.KV = append(a.Attrs.KV, dKV{K: fmt.Sprintf("arr%d", ai), V: v})
 			}
 		}
+		// an application (and a field) whose name is key-like text, written URL-escaped
+		if r.Chance(1, 2) {
+			ai := r.Intn(len(d.Apps))
+			old := appKey(d.Apps[ai].Parts)
+			if len(d.Apps[ai].Mixins) == 0 && !c09Referenced(d, old) {
+				d.Apps[ai].Parts = []string{Pick(r, []string{`K":  v`, `a": `, `x\":   y`})}
+			}
+		}
 		text := renderDFileC09(d, r.Fork())
 		m, err := compileFiles(map[string]string{"main.sysl": text}, "main.sysl")
 		if err != nil {
@@ -65,6 +73,17 @@ func c09Models(rnd *Rand, tier string) []struct {
 			mod  *sysl.Module
 			text string
 		}{fmt.Sprintf("gen%d", i), m, text})
+	}
+	// names that are key-like text, written URL-escaped
+	for i, nm := range []string{"K%22%3A%20%20v", "a%22%3A%20%20", "x%5C%22%3A%20%20%20y"} {
+		text := nm + " [~x]:\n    !type T%22%3A%20%20t:\n        f%22%3A%20%20g <: int\n    Op:\n        " + nm + " <- Op\n"
+		if m, err := compileFiles(map[string]string{"main.sysl": text}, "main.sysl"); err == nil {
+			out = append(out, struct {
+				name string
+				mod  *sysl.Module
+				text string
+			}{fmt.Sprintf("keylike%d", i), m, text})
+		}
 	}
 	return out
 }
@@ -243,3 +262,9 @@ func runC09(res *Result, tier string, rnd *Rand, replay string) {
 
 func dirOf(p string) string  { return p[:strings.LastIndex(p, "/")] }
 func baseOf(p string) string { return p[strings.LastIndex(p, "/")+1:] }
+
+// c09Referenced: some other declaration names the application (renaming it would break the reference)
+func c09Referenced(d *dFile, name string) bool {
+	js, _ := json.Marshal(d)
+	return strings.Count(string(js), strings.ReplaceAll(name, " :: ", `","`)) > 1 || len(d.Apps) > 1 && strings.Contains(name, " :: ")
+}
